@@ -157,7 +157,7 @@ def _script_function(function, args, options):
     if func_args is not None:
         args_length = len(args)
         func_args_length = len(func_args)
-        ix_arg_last = function.get('lastArgArray', None) and (func_args_length - 1)
+        ix_arg_last = (func_args_length - 1) if function.get('lastArgArray') else None
         for ix_arg in range(func_args_length):
             arg_name = func_args[ix_arg]
             if ix_arg < args_length:
